@@ -576,10 +576,9 @@ class C04(Check):
                                 name.split('[')[0])
                 else:
                     for i, kind in sorted(rest.items())[:1]:
-                        R.viol('%s:file-form:%s/%s:%s:%s' % (
+                        R.viol('%s:file-form:%s/%s:%s' % (
                             kind, self.form_name(case['fa']),
-                            self.form_name(case['fe']),
-                            TA.option_label(points[i]), name.split('[')[0]),
+                            self.form_name(case['fe']), name.split('[')[0]),
                             'file-forms',
                             {'entry': name, 'actual_text': ta,
                              'reference_text': te, 'options': points[i]},
